@@ -9,24 +9,24 @@ import (
 )
 
 // C04 facts (the glue the in-package harness mirrors by hand, and the shape the theorems rely on):
-//   * coscheduling.go Coscheduling.Permit: per `case core.X` the pgMgr methods called in its body
+//   - coscheduling.go Coscheduling.Permit: per `case core.X` the pgMgr methods called in its body
 //     (Success must release the group through AllowGangGroup);
-//   * Coscheduling.{Unreserve,PostBind,AfterPostFilter}: the pgMgr method each delegates to;
-//   * core.go PodGroupManager.Permit: the gang / cache methods it calls in source order, whether
+//   - Coscheduling.{Unreserve,PostBind,AfterPostFilter}: the pgMgr method each delegates to;
+//   - core.go PodGroupManager.Permit: the gang / cache methods it calls in source order, whether
 //     addAssumedPod precedes the loop over the gang group, and how many Lock()/RLock() calls it
 //     makes itself (0 = no cache-wide lock: the small-step theorem is the honest one);
-//   * core.go NewPodGroupManager: the handlers wired to the pod and PodGroup informers;
-//   * gang.go setChild: which of NodeName / WaitingForBindChildren / BoundChildren the guard of the
+//   - core.go NewPodGroupManager: the handlers wired to the pod and PodGroup informers;
+//   - gang.go setChild: which of NodeName / WaitingForBindChildren / BoundChildren the guard of the
 //     PendingChildren insertion mentions;
-//   * gang.go lock structure of the methods that touch the four child sets (the small-step model's
+//   - gang.go lock structure of the methods that touch the four child sets (the small-step model's
 //     critical sections): per method the number of gang.lock.Lock/RLock calls, of deferred and of
 //     explicit Unlock/RUnlock calls, and whether a child-set map is mentioned before the first Lock.
 //     One Lock + one deferred Unlock + no explicit Unlock + nothing before = the method is one section;
-//   * gang.go isGangValidForPermit: every field / method it mentions (the model's validForPermit reads exactly
+//   - gang.go isGangValidForPermit: every field / method it mentions (the model's validForPermit reads exactly
 //     HasGangInit, GangMatchPolicy, MinRequiredNumber, the sizes of WaitingForBindChildren / BoundChildren and the
 //     group's OnceResourceSatisfied — not WaitingGangIDs, BindingMemberPods or the representative pod, which the
 //     model leaves out);  core.go Unreserve / AfterPostFilter: the gang / manager methods they call, in order;
-//   * gang.go tryInitByPodConfig / tryInitByPodGroup: the test that guards the "gang is a group of its own"
+//   - gang.go tryInitByPodConfig / tryInitByPodGroup: the test that guards the "gang is a group of its own"
 //     fallback (`groupSlice = append(groupSlice, gang.Name)`): "len==0" or "nil" (the model's groupOrSelf is len==0).
 func init() {
 	extractors["C04"] = func(e *ext) {
@@ -276,6 +276,39 @@ func init() {
 		sort.Strings(regs) // by informer name: the order of the registrations does not matter
 		fmt.Fprintf(&e.out, "def handlerRegistrations : List (String × String) := [%s]\n", strings.Join(regs, ", "))
 
+		// ---- gang_cache.go onPodDelete / onPodGroupDelete: the type assertions at their head, in source order (which shapes
+		// of the informer's delete notification they understand: the object, or a DeletedFinalStateUnknown BY VALUE around it) ----
+		typeStr := func(x ast.Expr) string {
+			star := ""
+			if st, ok := x.(*ast.StarExpr); ok {
+				star, x = "*", st.X
+			}
+			switch v := x.(type) {
+			case *ast.SelectorExpr:
+				return star + v.Sel.Name
+			case *ast.Ident:
+				return star + v.Name
+			}
+			return star + "?"
+		}
+		var delShapes []string
+		for _, m := range []string{"onPodDelete", "onPodGroupDelete"} {
+			fd := e.funcDecl(core, "GangCache", m)
+			if fd == nil || fd.Body == nil {
+				e.fail("GangCache.%s not found", m)
+				continue
+			}
+			var asserts []string
+			ast.Inspect(fd.Body, func(x ast.Node) bool {
+				if ta, ok := x.(*ast.TypeAssertExpr); ok && ta.Type != nil {
+					asserts = append(asserts, leanStr(typeStr(ta.Type)))
+				}
+				return true
+			})
+			delShapes = append(delShapes, fmt.Sprintf("(%s, [%s])", leanStr(m), strings.Join(asserts, ", ")))
+		}
+		fmt.Fprintf(&e.out, "def deleteTypeAsserts : List (String × List String) := [%s]\n", strings.Join(delShapes, ", "))
+
 		// ---- gang_cache.go getGangFromCacheByGangId: get-or-create must be ONE critical section of the cache lock that
 		// contains the lookup AND the store: (write Locks, read RLocks, deferred unlocks, explicit unlocks, whether
 		// gangItems is mentioned before the first Lock or NewGang is called before it) ----
@@ -466,7 +499,6 @@ func init() {
 		}
 		fmt.Fprintf(&e.out, "def gangLockShape : List (String × Nat × Nat × Nat × Bool) := [%s]\n", strings.Join(shapes, ", "))
 		fmt.Fprintf(&e.out, "def setChildSections : Nat := %d\n", setChildSections)
-
 
 		// ---- what the permit / rejection decisions read ----
 		selNames := func(fd *ast.FuncDecl, skip map[string]bool) []string {
